@@ -201,11 +201,20 @@ func genView(rt *rapid.T, maxNodes int) vfView {
 		}
 		v.L2 = append(v.L2, a)
 	}
+	split := len(v.L2) == 0 && len(v.Nodes) >= 3
+	if split {
+		// scenario: the pool is advertised by two advertisements that select different (possibly overlapping) node
+		// sets and by nothing else, so the set of candidates is the union of what several advertisements select
+		v.L2 = append(v.L2, vw.L2AdvSpec{Name: "l2splitA", Pools: []string{"pool0"}, NodeSel: []vw.Sel{{"a": "x"}}},
+			vw.L2AdvSpec{Name: "l2splitB", Pools: []string{"pool0"}, NodeSel: []vw.Sel{{"b": "x"}, {"a": "y"}}})
+	}
 	v.Local = rapid.Bool().Draw(rt, "local")
 	v.Slices = vw.GenSlices(rt, "ns0", "svc0", nodeNames(v.Nodes), 3, 3, false)
 	if rapid.IntRange(0, 1).Draw(rt, "healthyBias") == 0 {
 		// half of the views: a catch-all advertisement and serving endpoints on most nodes, so that several nodes compete
-		v.L2 = append(v.L2, vw.L2AdvSpec{Name: "l2catchall", Pools: []string{"pool0"}})
+		if !split {
+			v.L2 = append(v.L2, vw.L2AdvSpec{Name: "l2catchall", Pools: []string{"pool0"}})
+		}
 		s := vw.SliceSpec{Name: "svc0-healthy", NS: "ns0", Svc: "svc0"}
 		for i, n := range v.Nodes {
 			if rapid.IntRange(0, 3).Draw(rt, "epHere") != 0 {
